@@ -318,4 +318,32 @@ theorem parked_reader_misses_error_counterexample :
     (step parkWorld (.reqRead 0)).2 = .blocked := by
   decide +kernel
 
+/-! ## the repaired `StreamReader._wait` (`waitRechecks = true`, i.e. `Gen.C09.waitRechecksException = true`) -/
+
+/-- **A resumed reader raises the recorded payload error** (repaired `_wait`; every codec, every
+state): a `BaseRequest.read()` that was parked, was woken normally (data, eof or a chunk end) and
+finds an exception recorded on the stream raises exactly that exception instead of reading on
+or parking again. -/
+theorem resumed_reader_raises_recorded_exception {c : Codec} (w : World c) (cms : Nat) (e : Err)
+    (hf : w.waitRechecks = true) (hs : w.reqStarted = true) (hp : w.reqParked = true) (hw : w.waiter = false)
+    (hk : w.wakeExc = none) (he : w.exc = some e) :
+    reqRead w cms = ({ w with reqParked := false }, .err e) := by
+  simp [reqRead, hf, hs, hp, hw, hk, he]
+
+/-- The same state on the code before the repair: with nothing buffered the resumed reader parks
+again on a fresh waiter — the recorded exception is never looked at (known finding K4). -/
+theorem resumed_reader_reparks_unrepaired {c : Codec} (w : World c) (cms : Nat) (e : Err)
+    (hf : w.waitRechecks = false) (hs : w.reqStarted = true) (hp : w.reqParked = true) (hw : w.waiter = false)
+    (hk : w.wakeExc = none) (he : w.exc = some e) (hb : w.buf = []) (heof : w.eof = false) (hc : w.connected = true) :
+    (reqRead w cms).2 = .blocked ∧ (reqRead w cms).1.waiter = true := by
+  simp [reqRead, reqLoop, hf, hs, hp, hw, hk, he, hb, heof, hc]
+
+/-- **The parked-reader scenario on both versions** (kernel-evaluated): same input as
+`parked_reader_misses_error_counterexample`; before the repair the last `read()` step blocks
+with the error recorded, after the repair it raises the `TransferEncodingError`. -/
+theorem parked_reader_scenario_both_versions :
+    (parkRun false).exc = some .transferEncoding ∧ (step (parkRun false) (.reqRead 0)).2 = .blocked ∧
+    (parkRun true).exc = some .transferEncoding ∧ (step (parkRun true) (.reqRead 0)).2 = .err .transferEncoding := by
+  decide +kernel
+
 end Aio.C09
